@@ -1,3 +1,4 @@
+import Varint.Lemmas.DimBits
 import Varint.Lemmas.Dimension
 /-
   C10 — dimension headers round-trip and matrix cells are independent.
@@ -153,6 +154,51 @@ theorem dim_cells_disjoint (buf out : List Nat) (dim row col v w row' col' cols 
   · left
     have : (row' * cols + col' + 1) * w ≤ (row * cols + col) * w := Nat.mul_le_mul_right w hgt
     rw [Nat.add_mul] at this; omega
+
+
+/-! ## bit cells -/
+
+/-- writing a bit cell makes a read of it return the written bit -/
+theorem dim_bit_get_set (buf out : List Nat) (dim row col : Nat) (on : Bool)
+    (h : setBit buf dim row col on = some out) : getBit out dim row col = some on :=
+  getBit_setBit buf out dim row col on h
+
+/-- …and changes no other bit cell, no other byte, no header byte, and keeps bytes < 256 -/
+theorem dim_bit_isolated (buf out : List Nat) (dim row col k : Nat) (on : Bool)
+    (hk : cellIndex buf dim row col = some k) (h : setBit buf dim row col on = some out) :
+    (∀ k', k' ≠ k →
+      (out[hdrLen dim + k' / 8]?).map (fun b => decide (b / 2 ^ (k' % 8) % 2 = 1)) =
+      (buf[hdrLen dim + k' / 8]?).map (fun b => decide (b / 2 ^ (k' % 8) % 2 = 1))) ∧
+    (∀ j, j ≠ hdrLen dim + k / 8 → out[j]? = buf[j]?) ∧
+    out.length = buf.length ∧
+    out.take (hdrLen dim) = buf.take (hdrLen dim) ∧
+    ((∀ x ∈ buf, x < 256) → ∀ x ∈ out, x < 256) :=
+  setBit_other_bits buf out dim row col k on hk h
+
+/-- the same statement on (row, col) coordinates, with the hypotheses of `dim_cells_disjoint` -/
+theorem dim_bit_cells_disjoint (buf out : List Nat) (dim row col row' col' cols : Nat) (on : Bool)
+    (hcols : ∀ r c, r ≠ 0 → cellIndex buf dim r c = some (r * cols + c))
+    (hc : col < cols) (hc' : col' < cols) (hne : (row, col) ≠ (row', col'))
+    (h : setBit buf dim row col on = some out) :
+    getBit out dim row' col' = getBit buf dim row' col' ∧
+    out.take (hdrLen dim) = buf.take (hdrLen dim) ∧ out.length = buf.length :=
+  dim_bits_disjoint buf out dim row col row' col' cols on hcols hc hc' hne h
+
+/-- toggle returns the old bit, stores its complement, and toggling twice restores the buffer -/
+theorem dim_bit_toggle (buf out : List Nat) (dim row col : Nat) (old : Bool)
+    (h : toggleBit buf dim row col = some (out, old)) :
+    getBit buf dim row col = some old ∧ getBit out dim row col = some (!old) ∧
+    out.length = buf.length ∧ out.take (hdrLen dim) = buf.take (hdrLen dim) ∧
+    toggleBit out dim row col = some (buf, !old) :=
+  let ⟨a, b, c, d⟩ := toggleBit_spec buf out dim row col old h
+  ⟨a, b, c, d, toggleBit_toggleBit buf out dim row col old h⟩
+
+/-- setting a bit to the value it has is a no-op -/
+theorem dim_bit_set_noop (buf : List Nat) (dim row col : Nat) (on : Bool)
+    (h : getBit buf dim row col = some on) : setBit buf dim row col on = some buf :=
+  setBit_noop buf dim row col on h
+
+example : setBit [3, 5, 0, 0, 0, 0] 16 2 4 true = some [3, 5, 0, 64, 0, 0] := by decide
 
 /-- non-vacuity: a 3×5 matrix of 2-byte cells behind its 2-byte header -/
 example : setEntry ([3, 5] ++ List.replicate 30 0) 16 2 4 0xffff 2 = some ([3, 5] ++ List.replicate 28 0 ++ [255, 255]) := by
